@@ -79,13 +79,31 @@ func (f *fileCtx) funcName(n ast.Node) string {
 }
 
 func (f *fileCtx) funcDecl(n ast.Node) *ast.FuncDecl {
+	var lit *ast.FuncLit
 	for x := n; x != nil; x = f.par[x] {
 		if fd, ok := x.(*ast.FuncDecl); ok {
 			return fd
 		}
+		if fl, ok := x.(*ast.FuncLit); ok {
+			lit = fl
+		}
+	}
+	if lit != nil {
+		// a function literal at package level (an entry of a handler table): treated as a declaration of its own
+		if litDecls == nil {
+			litDecls = map[*ast.FuncLit]*ast.FuncDecl{}
+		}
+		if d, ok := litDecls[lit]; ok {
+			return d
+		}
+		d := &ast.FuncDecl{Name: ast.NewIdent("func literal"), Type: lit.Type, Body: lit.Body}
+		litDecls[lit] = d
+		return d
 	}
 	return nil
 }
+
+var litDecls map[*ast.FuncLit]*ast.FuncDecl
 
 // eachCall visits every call expression of stratum B with its resolved callee (may be nil).
 func (c *ctx) eachCall(f func(fc *fileCtx, call *ast.CallExpr, callee *types.Func)) {
